@@ -73,6 +73,8 @@ type Oracles struct {
 	// teardown/open pairing
 	opens     map[string]int
 	teardowns map[string]int
+	ap        *apState
+	drainAs   string // property that checkDrained reports under ("" = C06)
 }
 
 func newOracles() *Oracles {
@@ -81,7 +83,7 @@ func newOracles() *Oracles {
 		dlqOK: map[delivKey]int{}, dlqWrites: map[delivKey]int{}, dlqFailed: map[delivKey]int{}, dlqState: map[delivKey]string{}, dlqPending: map[string][]delivKey{}, dlqFaulted: map[string]bool{},
 		handled: map[string]map[int]bool{}, durIdx: map[string]int{}, durSet: map[string]bool{},
 		lastWrite: map[string][2]string{}, processed: map[string]int{}, ackedDeliveries: map[delivKey]int{},
-		ctl: newCtlState(), rc: newReconfState(),
+		ctl: newCtlState(), rc: newReconfState(), ap: newApState(),
 		bootInc: map[int]bool{}, firstOpen: map[string]bool{}, opens: map[string]int{}, teardowns: map[string]int{},
 	}
 }
@@ -279,7 +281,9 @@ func (o *Oracles) onEvent(w *World, e *Event) {
 			s.open = false
 			s.toreAt = e.Seq
 		}
-		o.teardowns[e.Ent]++
+		if e.Sess > 0 {
+			o.teardowns[e.Ent]++
+		}
 	case "SRC_ACK":
 		s := o.sess[sessKey(e.Ent, e.Sess)]
 		for i, id := range e.IDs {
@@ -421,8 +425,8 @@ func (o *Oracles) onEvent(w *World, e *Event) {
 			}
 		}
 		delete(o.dlqPending, e.Ent)
-		if e.Kind == "DST_TEARDOWN" {
-			o.teardowns[e.Ent]++
+		if e.Kind == "DST_TEARDOWN" && e.Sess > 0 {
+			o.teardowns[e.Ent]++ // (a teardown of a plugin that never opened a session pairs with nothing)
 		}
 	case "DB_SET", "TX_COMMIT":
 		if e.Kind == "DB_SET" && strings.HasPrefix(e.Ent, "pipeline:instance:") {
@@ -545,11 +549,11 @@ func (o *Oracles) checkDrained(w *World, how string) {
 		_, c := o.confirmed[lk]
 		_, n := o.nacked[lk]
 		if !c && !n {
-			w.violate("C06", "stop-left-write-unconfirmed", fmt.Sprintf("%s returned but %s/%d written to %s has no outcome", how, lk.Src, lk.Idx, lk.Dst))
+			w.violate(o.drainProp(), "stop-left-write-unconfirmed", fmt.Sprintf("%s returned but %s/%d written to %s has no outcome", how, lk.Src, lk.Idx, lk.Dst))
 			return
 		}
 		if _, acked := o.ackedDeliveries[D]; !acked {
-			w.violate("C06", "stop-left-record-unacked", fmt.Sprintf("%s returned nil but record %s/%d (delivery %d) reached destination %s and was never acknowledged to its source", how, lk.Src, lk.Idx, lk.N, lk.Dst))
+			w.violate(o.drainProp(), "stop-left-record-unacked", fmt.Sprintf("%s returned nil but record %s/%d (delivery %d) reached destination %s and was never acknowledged to its source", how, lk.Src, lk.Idx, lk.N, lk.Dst))
 			return
 		}
 	}
@@ -558,7 +562,7 @@ func (o *Oracles) checkDrained(w *World, how string) {
 			continue
 		}
 		if _, acked := o.ackedDeliveries[D]; !acked {
-			w.violate("C06", "stop-left-record-unacked", fmt.Sprintf("%s returned nil but dead-lettered record %s/%d was never acknowledged to its source", how, D.Src, D.Idx))
+			w.violate(o.drainProp(), "stop-left-record-unacked", fmt.Sprintf("%s returned nil but dead-lettered record %s/%d was never acknowledged to its source", how, D.Src, D.Idx))
 			return
 		}
 	}
@@ -572,13 +576,13 @@ func (o *Oracles) checkDrained(w *World, how string) {
 			continue
 		}
 		if s.open {
-			w.violate("C06", "stop-left-source-open", fmt.Sprintf("%s returned nil but source %s session %d was not torn down", how, sc.ID, sys.sess.n))
+			w.violate(o.drainProp(), "stop-left-source-open", fmt.Sprintf("%s returned nil but source %s session %d was not torn down", how, sc.ID, sys.sess.n))
 		}
 		// durable position equals the last acked record
 		if s.acked > 0 {
 			last := s.emitted[s.acked-1]
 			if !o.durSet[sc.ID] || o.durIdx[sc.ID] != last {
-				w.violate("C06", "stop-position-not-last-ack", fmt.Sprintf("%s returned nil: source %s last acked record %d but the store holds index %d (set=%v)", how, sc.ID, last, o.durIdx[sc.ID], o.durSet[sc.ID]))
+				w.violate(o.drainProp(), "stop-position-not-last-ack", fmt.Sprintf("%s returned nil: source %s last acked record %d but the store holds index %d (set=%v)", how, sc.ID, last, o.durIdx[sc.ID], o.durSet[sc.ID]))
 			}
 		}
 	}
@@ -598,13 +602,13 @@ func (o *Oracles) checkTeardownPairing(w *World, how string) {
 	sort.Strings(ents)
 	for _, e := range ents {
 		if o.opens[e] != o.teardowns[e] {
-			w.violate("C06", "teardown-mismatch", fmt.Sprintf("%s returned nil: connector %s was opened %d times and torn down %d times", how, e, o.opens[e], o.teardowns[e]))
+			w.violate(o.drainProp(), "teardown-mismatch", fmt.Sprintf("%s returned nil: connector %s was opened %d times and torn down %d times", how, e, o.opens[e], o.teardowns[e]))
 		}
 	}
 	for id, ps := range w.procs {
 		for gen, n := range ps.opened {
-			if ps.torndown[gen] != n {
-				w.violate("C06", "teardown-mismatch", fmt.Sprintf("%s returned nil: processor %s generation %d was opened %d times and torn down %d times", how, id, gen, n, ps.torndown[gen]))
+			if ps.torndown[gen] < n || ps.torndown[gen] > n+ps.failedOpens[gen] {
+				w.violate(o.drainProp(), "teardown-mismatch", fmt.Sprintf("%s returned nil: processor %s generation %d was opened %d times and torn down %d times", how, id, gen, n, ps.torndown[gen]))
 			}
 		}
 	}
@@ -684,6 +688,13 @@ func (o *Oracles) openSessions(w *World) []string {
 	}
 	sort.Strings(out)
 	return out
+}
+
+func (o *Oracles) drainProp() string {
+	if o.drainAs != "" {
+		return o.drainAs
+	}
+	return "C06"
 }
 
 func unhex(h string) string {
